@@ -1,0 +1,18 @@
+//go:build !verif
+
+package storage
+
+import (
+	"github.com/MixinNetwork/mixin/common"
+	"github.com/MixinNetwork/mixin/crypto"
+)
+
+// No-op twins of the verification trace hooks (see verif_hook.go, build tag "verif").
+
+func verifAfterWriteSnapshot(s *BadgerStore, snap *common.SnapshotWithTopologicalOrder) {}
+
+func verifAfterWriteConsensusSnapshot(s *BadgerStore, snap *common.Snapshot, tx *common.VersionedTransaction) {
+}
+
+func verifAfterRound(s *BadgerStore, ev string, node crypto.Hash, number uint64, references *common.RoundLink) {
+}
